@@ -35,7 +35,8 @@ let rec int_of_pos = function XH -> 1 | XO p -> 2 * int_of_pos p | XI p -> 2 * i
 let int_of_z = function Z0 -> 0 | Zpos p -> int_of_pos p | Zneg p -> - (int_of_pos p)
 let n_of_z = function Z0 -> N0 | Zpos p -> Npos p | Zneg _ -> failwith "negative rank"
 let rec int_of_nat = function O -> 0 | S n -> 1 + int_of_nat n
-let rec nat_of_int i = if i <= 0 then O else S (nat_of_int (i - 1))
+(* unary nat: indexes beyond any reachable number of kinds are clamped (they all mean "no such kind") *)
+let nat_of_int i = let rec go acc i = if i <= 0 then acc else go (S acc) (i - 1) in go O (min i 100000)
 
 let str_of_hex h =
   if h = "-" then [] else
@@ -63,7 +64,7 @@ let dump () =
     Printf.printf "k %d rc=0 %s eff=%d infos=%s\n" i (show_set k.k_cpuset) (int_of_z k.k_eff)
       (String.concat "," (List.map (fun (n, v) -> hex_of_str n ^ "=" ^ hex_of_str v) k.k_infos))) ks;
   Printf.printf "p alloc=%d" (List.length ks + List.length !st.tail);
-  List.iteri (fun i k -> Printf.printf " %d:forced=%d:rank=%s" i (int_of_z k.k_forced) (hex_of_n (n_of_z k.k_rank))) ks;
+  List.iteri (fun i k -> Printf.printf " %d:forced=%d:rank=%s:arr=%d" i (int_of_z k.k_forced) (hex_of_n (n_of_z k.k_rank)) (if k.k_arr then 1 else 0)) ks;
   print_newline ()
 
 let fatal f =
